@@ -7,7 +7,9 @@ HARNESSES = {
     # harness sub-directory -> (package directory under /repo, package name for the common helper)
     "packages": {
         "proto": ("internal/proto", "proto"),
+        "turn": (".", "turn"),
     },
+    "H2": {"pkg": ".", "run": "^TestVerifH2$", "streams": ["h2"], "toolchain": "go1.26.0", "timeout": (900, 3000)},
     "H1": {"pkg": "./internal/proto/", "run": "^TestVerifH1$", "streams": ["h1"], "toolchain": None,
            "timeout": (600, 2400)},
 }
